@@ -125,6 +125,13 @@ claim("C24", "Proof that the bearer extractor hands the validator exactly what f
       "ConstantTimeCompare(a,b)==1 iff equal bytes (assumed); a token configured with a nil identity authenticates nobody.",
       ["the contents of the split parts (strings.Builder)", "URL-decoding of XFCC fields and CN extraction (regexp based)", "BearerAuthenticateStatic's construction of the entry list from the map"])
 
+claim("C07", "Proof over every path of deserializeParams that nothing is bound into the parameter struct — a column value or a declared default — unless (*arrow.Schema).Equal returned true for the batch's own schema and the declared one (the memoized declaration is immutable: checked package-wide), that the value bound comes from the resolved column's row 0 with the field's declared type, that a null with a declared default binds that default; and that the pipe unary dispatcher calls the handler only after binding succeeded.",
+      "schemaEq IS the verdict of (*arrow.Schema).Equal (field order, names, types incl. type parameters, nullability: arrow-go's contract, assumed); setFieldFromArrow's reflect-based body is outside the subset.",
+      ["each field holds the value sent (setFieldFromArrow / reflect)", "the HTTP dispatchers and stream init call sites", "TypeError wire name of the refusal (C05)"])
+claim("C09", "Proof that buildDescribeBatch sorts the method names before rendering anything, that every name contributes exactly one entry to each of the seven parallel hash inputs in the same order (lengths stay in step with the name index), that each row's schema bytes are the serialization of that method's registered parameter / output-or-result / header schema and the same bytes go to the column and to the hash input, that the hash is computed over exactly those snapshots and the protocol name, that the batch has one row per name; and that computeProtocolHash indexes its parallel inputs in range (precondition discharged at the call).",
+      "sort.Strings sorts (assumed); serializeSchema / arrow builders are unknown calls.",
+      ["the canonical framing bytes of the hash and equality with the reference algorithm (checked by the replay witnesses only)", "independence of registration order (map iteration in availableMethods; the sort makes it so, witnesses only)", "pipe/HTTP parity of the describe response"])
+
 # properties not claimed: reason
 NOT_APPLICABLE = {
     "C11": "relational two-run equivalence between the pipe loop and the HTTP handlers routed through gob, AEAD and Arrow IPC; contracts here are single-run and per function",
